@@ -92,6 +92,30 @@ class RefEngine(Engine):
                 items.append((k, 'U'))
         return tuple(items)
 
+    # loops -------------------------------------------------------------------------------
+    # candidate invariant "the loop-carried raw mpf stays canonical": assumed after the havoc when it holds
+    # on entry, checked at the end of the loop body (inductive); no bit bound is carried through a loop
+    def on_loop_havoc(self, px, s, st, frame):
+        pre = getattr(st, 'loop_pre', {}) or {}
+        keep = set()
+        for n, v in pre.items():
+            if isinstance(v, ConstV) and isinstance(v.obj, tuple):
+                v = lift(v.obj)
+            ok = isinstance(v, (RefV, ParamV)) or (isinstance(v, TupV) and is_raw_shape(v) and prove_refinement(st, v, None))
+            if ok:
+                st.env[n] = RefV(None, 'loop-carried %s' % n)
+                keep.add(n)
+        self.__dict__.setdefault('loop_inv', {})[s.lineno] = keep
+
+    def on_loop_back(self, px, s, st, frame):
+        for n in self.__dict__.get('loop_inv', {}).get(s.lineno, ()):
+            v = st.env.get(n)
+            if isinstance(v, ConstV) and isinstance(v.obj, tuple):
+                v = lift(v.obj)
+            ok = isinstance(v, (RefV, ParamV)) or (isinstance(v, TupV) and is_raw_shape(v) and prove_refinement(st, v, None))
+            if not ok:
+                self.failed_args.append('L%s: loop-carried %s is not proved canonical at the end of the loop body' % (s.lineno, n))
+
     # calls -------------------------------------------------------------------------------
     def on_unknown_call(self, px, fv, st, frame, guard, node, name):
         f = fv.obj if isinstance(fv, ConstV) else None
